@@ -313,3 +313,11 @@ def r11_6(ctx):
 
 
 RULES = [r11_1, r11_2, r11_3, r11_4, r11_5, r11_6]
+
+
+def _xcheck(ctx):
+    from .common import mypy_crosscheck
+    mypy_crosscheck(ctx)
+
+
+THOROUGH = [_xcheck]
